@@ -33,6 +33,9 @@ pub enum Op {
     /// get, keep the guard while `ms` of virtual time pass and the background tasks run until they
     /// are idle or wait for the guard, then read ValueRef::ttl() through the guard
     GetHold { k: u64, ms: u64 },
+    /// get, keep the guard across a yield to the scheduler (other threads and the background tasks
+    /// may run while this client holds the shard's read lock), then drop it
+    GetYield { k: u64 },
     Clear,
     Wait,
     MaxCost { m: i64 },
@@ -57,6 +60,7 @@ impl Op {
             Op::Mut { k } => format!("M({})", k),
             Op::Ttl { k } => format!("T({})", k),
             Op::GetHold { k, ms } => format!("H({},{}ms)", k, ms),
+            Op::GetYield { k } => format!("Y({})", k),
             Op::Clear => "X".into(),
             Op::Wait => "W".into(),
             Op::MaxCost { m } => format!("U({})", m),
@@ -70,7 +74,7 @@ impl Op {
     }
     pub fn key(&self) -> Option<u64> {
         match self {
-            Op::Ins { k, .. } | Op::Pres { k, .. } | Op::Rem { k } | Op::Get { k } | Op::Mut { k } | Op::Ttl { k } | Op::GetHold { k, .. } => Some(*k),
+            Op::Ins { k, .. } | Op::Pres { k, .. } | Op::Rem { k } | Op::Get { k } | Op::Mut { k } | Op::Ttl { k } | Op::GetHold { k, .. } | Op::GetYield { k } => Some(*k),
             _ => None,
         }
     }
@@ -558,6 +562,21 @@ impl H {
         match r {
             Ok(x) => Res::Bool(x),
             Err(e) => Res::Err(e.to_string()),
+        }
+    }
+    /// get, yield to the scheduler with the guard alive, then release it
+    pub fn get_yield(&self, k: u64) -> Res {
+        match self {
+            H::S(x) => {
+                let g = x.get(&k);
+                rt::thread::yield_now();
+                Res::Val(g.map(|r| (*r.value(), Some(ttl_ns(r.ttl())))))
+            }
+            H::A(x) => {
+                let g = b(x.get(&k));
+                rt::thread::yield_now();
+                Res::Val(g.map(|r| (*r.value(), Some(ttl_ns(r.ttl())))))
+            }
         }
     }
     /// get, hold the guard while `ms` of virtual time pass, then ask the guard for its TTL
